@@ -133,10 +133,78 @@ theorem linesScanMax_short (max : Nat) (data : Seq) (h : shortLines max data = t
   have h3 : ¬ (max ≤ last.length) := by omega
   simp [h1, h3]
 
+/-- the scan ends with `ErrTooLong` exactly when some line has `max` bytes or more -/
+theorem scanErr_eq (max : Nat) (hmax : 0 < max) (data : Seq) : scanErr max data = !shortLines max data := by
+  have := shortRun_splitNl max data []
+  simp only [List.length_nil] at this
+  unfold shortLines scanErr
+  rw [this]
+  generalize splitNl data [] = p
+  obtain ⟨ls, last⟩ := p
+  simp only [Bool.not_and]
+  congr 1
+  cases last with
+  | nil => simp; omega
+  | cons a t =>
+    simp only [List.isEmpty_cons, Bool.not_false, Bool.true_and, List.length_cons]
+    by_cases h : t.length + 1 < max
+    · have : ¬ (max ≤ t.length + 1) := by omega
+      simp [h, this]
+    · have : max ≤ t.length + 1 := by omega
+      simp [h, this]
+
+theorem scanErr_short (max : Nat) (data : Seq) (h : shortLines max data = true) : scanErr max data = false := by
+  have := shortRun_splitNl max data []
+  simp only [List.length_nil] at this
+  unfold shortLines at h
+  rw [this] at h
+  unfold scanErr
+  generalize splitNl data [] = p at h
+  obtain ⟨ls, last⟩ := p
+  simp only [Bool.and_eq_true, decide_eq_true_eq] at h
+  obtain ⟨h1, h2⟩ := h
+  have h3 : ¬ (max ≤ last.length) := by omega
+  simp [h1, h3]
+
 theorem parseEmblMax_short (max : Nat) (wf : Bool) (c : Seq) (h : shortLines max c = true) :
     parseEmblMax max wf c = .ok (emblRecs wf c) := by
   unfold parseEmblMax emblRecs
-  rw [linesScanMax_short max c h]
+  rw [linesScanMax_short max c h, scanErr_short max c h]
+  simp
+
+/-- **fatal exactly on a chunk with a line of `max` bytes or more** (never a panic) -/
+theorem parseEmblMax_fatal_iff (max : Nat) (hmax : 0 < max) (wf : Bool) (c : Seq) :
+    (parseEmblMax max wf c = .error .fatal ↔ shortLines max c = false) ∧
+    (shortLines max c = false → parseEmblMax max wf c = .error .fatal) ∧
+    parseEmblMax max wf c ≠ .error .panic := by
+  unfold parseEmblMax
+  rw [scanErr_eq max hmax c]
+  cases shortLines max c <;> simp
+
+/-- `shortLines` of a text cut after a `\n` -/
+theorem shortRun_append_nl (max : Nat) (y : Seq) : ∀ (p : Seq) (n : Nat),
+    shortRun max (p ++ 10 :: y) n = (shortRun max (p ++ [10]) n && shortRun max y 0) := by
+  intro p
+  induction p with
+  | nil =>
+    intro n
+    simp only [List.nil_append, shortRun, beq_self_eq_true, if_true]
+    by_cases h : n < max
+    · have : 0 < max := by omega
+      simp [h, this]
+    · simp [h]
+  | cons c t ih =>
+    intro n
+    by_cases hc : c = 10
+    · subst hc
+      simp only [List.cons_append, shortRun, beq_self_eq_true, if_true, ih 0, Bool.and_assoc]
+    · have : (c == 10) = false := by simpa using hc
+      simp only [List.cons_append, shortRun, this]
+      exact ih (n + 1)
+
+theorem shortLines_append_nl (max : Nat) (p y : Seq) :
+    shortLines max (p ++ 10 :: y) = (shortLines max (p ++ [10]) && shortLines max y) :=
+  shortRun_append_nl max y p 0
 
 /-- `EmblChunkParser` on a chunk without a line of 65536 bytes or more -/
 theorem parseEmbl_eq_short (wf : Bool) (c : Seq) (h : shortLines maxScanTok c = true) :
@@ -260,5 +328,36 @@ theorem parseEmblMax_append (max : Nat) (wf : Bool) {a : Seq} (h : FlatEnd a) (h
   unfold emblRecs
   rw [h1, emRun_append, emRun_append]
   simp only [emRun, emLine_slashes]
+
+/-- **EMBL record locality, repaired parser, no hypothesis on the lines**: `a` ends with an end-of-record
+line; for EVERY `b` the chunk `a ++ b` fails as `a` fails, else as `b` fails, else yields the records of `a`
+followed by those of `b` -/
+theorem parseEmblMax_append_any (max : Nat) (hmax : 0 < max) (wf : Bool) {a : Seq} (h : FlatEnd a) (b : Seq) :
+    parseEmblMax max wf (a ++ b) =
+      match parseEmblMax max wf a with
+      | .error e => .error e
+      | .ok ra =>
+        match parseEmblMax max wf b with
+        | .error e => .error e
+        | .ok rb => .ok (ra ++ rb) := by
+  obtain ⟨p, hp⟩ := flatEnd_snoc h
+  have hsl : shortLines max (a ++ b) = (shortLines max a && shortLines max b) := by
+    rw [hp]
+    have : p ++ [10] ++ b = p ++ 10 :: b := by simp
+    rw [this, shortLines_append_nl]
+  cases ha : shortLines max a with
+  | false =>
+    have h1 := ((parseEmblMax_fatal_iff max hmax wf a).2.1) ha
+    have h2 := ((parseEmblMax_fatal_iff max hmax wf (a ++ b)).2.1) (by rw [hsl, ha]; rfl)
+    rw [h1, h2]
+  | true =>
+    rw [parseEmblMax_short max wf a ha]
+    simp only
+    have hlist := parseEmblMax_append max wf h ha b
+    unfold parseEmblMax
+    rw [scanErr_eq max hmax (a ++ b), scanErr_eq max hmax b, hsl, ha, Bool.true_and]
+    cases shortLines max b with
+    | false => simp
+    | true => simp [hlist]
 
 end ObiVerif.Parse
